@@ -34,12 +34,14 @@ def variants_1d(op, ints, scal, fams=G.FAMS_1D, styles=("o", "r"), extra=("",)):
 
 def base_case(rng):
     den = rng.choice([4, 8, 16])
-    op = rng.choice(["fuse", "fuse", "fuse_os", "fuse_ss", "proj", "umax", "discount", "mbr", "deduce", "deduce_with",
-                     "inverse", "abduce_with", "prod2", "merge"])
+    op = rng.choice(["fuse", "fuse", "fuse", "fuse_os", "fuse_os", "fuse_os", "fuse_ss", "fuse_ss", "proj", "umax", "discount",
+                     "mbr", "deduce", "deduce_with", "inverse", "abduce_with", "prod2", "merge"])
     if op in ("fuse", "fuse_os", "fuse_ss", "proj", "umax", "discount"):
         n = rng.choice([1, 2, 3, 4])
-        w1 = G.rand_opinion(rng, n, den, G.rand_kind(rng))
-        w2 = G.rand_opinion(rng, n, den, G.rand_kind(rng))
+        # the fusion overloads have guard arms for vacuous / dogmatic operands: draw those kinds as often as interior ones
+        kinds = ["int", "vac", "dog", "any"] if op.startswith("fuse") else None
+        w1 = G.rand_opinion(rng, n, den, rng.choice(kinds) if kinds else G.rand_kind(rng))
+        w2 = G.rand_opinion(rng, n, den, rng.choice(kinds) if kinds else G.rand_kind(rng))
         fo = rng.randint(0, 3)
         if op == "fuse":
             vs = variants_1d("fuse", [n, fo, 0], w1 + w2, extra=("", "asg"))
@@ -93,7 +95,7 @@ def base_case(rng):
 def cases(rng, tier):
     CROSS_GROUPS[0] = 0
     out = []
-    N = 150 if tier == "quick" else 4000
+    N = 220 if tier == "quick" else 4000
     for _ in range(N):
         vs, info = base_case(rng)
         gid = CROSS_GROUPS[0]; CROSS_GROUPS[0] += 1
